@@ -348,9 +348,10 @@ func cmdCheck(args []string) {
 	solver := fs.String("solver", "z3", "primary solver")
 	nomerge := fs.Bool("no-merge", false, "disable if-conversion")
 	replayFile := fs.String("replay", "", "replay a recorded vector natively")
-	timeoutMs := fs.Int("solver-timeout-ms", 60000, "per-query solver timeout")
+	timeoutMs := fs.Int("solver-timeout-ms", 20000, "per-query solver timeout")
 	only := fs.String("only", "", "only run harnesses whose name contains this")
-	jobTimeout := fs.Int("job-timeout-s", 1500, "wall-clock limit per job (a job hitting it is inconclusive)")
+	totalTimeout := fs.Int("total-timeout-s", 0, "wall-clock limit for the whole check (0: 1500 s quick, 6 h thorough); jobs not started by then are reported as not run (exit 2)")
+	jobTimeout := fs.Int("job-timeout-s", 900, "wall-clock limit per job (a job hitting it is inconclusive)")
 	verbose := fs.Bool("v", false, "verbose")
 	summary := fs.String("summary", "", "write a per-shape summary of violation ids (for differential self-checks)")
 	if len(args) < 1 {
@@ -421,6 +422,14 @@ func cmdCheck(args []string) {
 		filtered = append(filtered, j)
 	}
 	jobs = filtered
+	if *totalTimeout == 0 {
+		*totalTimeout = 1500
+		if *tier == "thorough" {
+			*totalTimeout = 6 * 3600
+		}
+	}
+	globalDeadline := time.Now().Add(time.Duration(*totalTimeout) * time.Second)
+	notRun := 0
 	// dynamic work queue: big jobs hand sub-trees of their DFS to idle workers
 	var qmu sync.Mutex
 	qcond := sync.NewCond(&qmu)
@@ -450,6 +459,10 @@ func cmdCheck(args []string) {
 					idle++
 					qcond.Wait()
 					idle--
+				}
+				if len(queue) > 0 && time.Now().After(globalDeadline) {
+					notRun += len(queue)
+					queue = nil
 				}
 				if len(queue) == 0 {
 					qmu.Unlock()
@@ -516,6 +529,9 @@ func cmdCheck(args []string) {
 	ev := newEvidence(id, *tier, seed, spec)
 	exit := 0
 	var engineProblems []string
+	if notRun > 0 {
+		engineProblems = append(engineProblems, fmt.Sprintf("time limit of %d s reached: %d jobs were not run (inconclusive)", *totalTimeout, notRun))
+	}
 	type vrec struct {
 		v     sym.Violation
 		pkg   string
